@@ -20,9 +20,21 @@ RP = dict(driver='C10/hash.cc', sources=['src/Hash.cc', 'src/Strings.cc'])
 def fold_unit(ctx, src):
     u = Unit(ctx, 'Hash_fold')
     u.raw('#include <stdint.h>\n#include <stddef.h>\n')
-    table = u.snippet(src, HCC, r'static const uint32_t crc32_table\[0x100\] = \{[^{}]*\};')
-    u.raw(table)
-    u.functions.append({'file': HCC, 'cxx_header': 'static const uint32_t crc32_table[0x100]', 'c_header': 'static const uint32_t crc32_table[0x100]', 'line': 18})
+    u.table_generator = None
+    try:
+        table = u.snippet(src, HCC, r'static const uint32_t crc32_table\[0x100\] = \{[^{}]*\};')
+        u.raw(table + '\n#define C10_TABLE_INIT()')
+        u.functions.append({'file': HCC, 'cxx_header': 'static const uint32_t crc32_table[0x100]', 'c_header': 'static const uint32_t crc32_table[0x100]', 'line': 18})
+    except ExtractionBreak:
+        # the table may also be computed: `static const(expr) array<uint32_t, 0x100> crc32_table = GENERATOR();` -- the generator function is
+        # extracted and run at the start of every harness that uses the table (its constant-bound loops are unwound completely)
+        gen = u.snippet(src, HCC, r'static (?:constexpr|const) array<uint32_t, 0x100> crc32_table = (\w+)\(\);', group=1)
+        u.raw('static uint32_t crc32_table[0x100];')
+        u.function(src, HCC, r'static (?:constexpr |const )?array<uint32_t, 0x100> %s\(\)' % gen, new_header='static void %s(void)' % gen, must_loops=False,
+                   rules=[Rule(r'\barray<uint32_t, 0x100> (\w+)(?:\{\})?;', r'uint32_t \1[0x100] = {0};', count=1, regex=True),
+                          Rule(r'\breturn (\w+);', r'{ __CPROVER_array_copy(crc32_table, \1); return; }', count=1, regex=True)])
+        u.raw('#define C10_TABLE_INIT() %s()' % gen)
+        u.table_generator = gen
     # default arguments (the one-argument forms of the property): crc32(.., cs = 0), fnv1a32(.., hash = FNV1A32_START)
     u.raw('#define X_CRC32_DEFAULT_SEED (%s)' % u.snippet(src, HHH, r'uint32_t crc32\(const void\* vdata, size_t size, uint32_t cs = ([^,;()]+)\);', group=1))
     u.raw('#define X_FNV1A32_START (%s)' % u.snippet(src, HHH, r'constexpr uint32_t FNV1A32_START = ([^;]+);', group=1))
@@ -59,12 +71,15 @@ def fold_unit(ctx, src):
     return u
 
 
-def fold_groups(ctx):
+def fold_groups(ctx, gen=None):
     H = 'harness/C10/fold.c'
     gs = []
 
     def G(name, entry, function, **kw):
         kw.setdefault('replay', Replay(mode=function, **RP))
+        if gen and 'crc32' in name:
+            # a computed table: the generator's loops have constant bounds (256 entries x 8 bit steps) and are unwound completely
+            kw['cbmc_flags'] = list(kw.get('cbmc_flags', [])) + ['--unwindset', '%s.0:258,%s.1:258' % (gen, gen), '--unwinding-assertions']
         g = Group(name=name, harness=H, entry=entry, function=function, **kw)
         gs.append(g)
         return g
@@ -374,7 +389,7 @@ def plan(ctx):
     u = fold_unit(ctx, src)
     u.write()
     ctx.functions_under_contract = list(u.functions)
-    groups += fold_groups(ctx)
+    groups += fold_groups(ctx, u.table_generator)
     for name in ('MD5', 'SHA1', 'SHA256'):
         um = md_unit(ctx, src, name)
         um.write()
